@@ -44,6 +44,8 @@ func main() {
 		ok, out := runOverlayTest(r.pkg, "zz_gowp_replay_test.go", src, r.test)
 		fmt.Println(ok, out)
 		os.Exit(0)
+	case "genast2":
+		os.Exit(cmdGenAst2(os.Args[2:]))
 	case "selftest":
 		os.Exit(cmdSelftest(os.Args[2:]))
 	default:
